@@ -114,8 +114,8 @@ def c24_case(draw, alpha):
 
 
 def strings_of(case):
-    spec = case["spec"]
-    out = list(spec["executable"]) if isinstance(spec["executable"], list) else []
+    spec = G.effective_spec(case)
+    out = list(spec["executable"]) if isinstance(spec["executable"], list) else [spec["executable"]]
     for f in spec["fields"]:
         v = case["values"].get(f["name"], f.get("default"))
         if f["type"] in ("str", "file", "list[str]", "multi[str]") and v is not None \
@@ -131,9 +131,11 @@ def run(sh):
             strs = strings_of(case)
             special = G.has_special(strs)
             labels = [f"alphabet_{case['alphabet']}"]
-            if isinstance(case["spec"]["executable"], list) and \
-                    G.has_special(case["spec"]["executable"]):
+            exe = G.effective_spec(case)["executable"]
+            if G.has_special(exe if isinstance(exe, list) else [exe]):
                 labels.append("special_chars_in_executable")
+            if case.get("executable_override") is not None:
+                labels.append("executable_given_at_instantiation")
             if G.has_special(case.get("append_args") or []):
                 labels.append("special_chars_in_append_args")
             if any(" " in s for s in strs):
